@@ -246,6 +246,12 @@ impl Prop for C07 {
         let mut subs = 0u64;
         match &case.plan {
             Plan::Single { at, kind, frag, once, os } => {
+                if *at as usize >= boundary {
+                    // a fault at or beyond the end-of-attributes tag is outside the statement (the shrinker can move the
+                    // boundary below the fault offset): nothing to judge
+                    rep.count("skipped_fault_not_before_the_end_tag", 1);
+                    return rep;
+                }
                 let f = case.frags.get(*frag).cloned().unwrap_or_default();
                 let (v, h) = self.sub_run(&data, case.mode, &f, *at, *kind, *once, *os, &mut rep, record);
                 agg.u64(h);
@@ -313,6 +319,18 @@ impl Prop for C07 {
 
     fn shrink(&self, c: &Case) -> Vec<Case> {
         let mut out = Vec::new();
+        if let Plan::Sweep { positions } = &c.plan {
+            // a sweep is replaced by single placements (the failing one is normally named by the run itself; these
+            // also give the shrinker-soundness self-check something to descend into)
+            let pts: Vec<u32> = match positions {
+                Some(p) if !p.is_empty() => vec![p[0], p[p.len() / 2], p[p.len() - 1]],
+                _ => vec![0, 8, 9],
+            };
+            for at in pts {
+                out.push(Case { plan: Plan::Single { at, kind: FaultKind::Eof, frag: 0, once: false, os: false }, ..c.clone() });
+                out.push(Case { plan: Plan::Single { at, kind: FaultKind::Err(ErrKind::ConnectionReset), frag: 1.min(c.frags.len().saturating_sub(1)), once: true, os: true }, ..c.clone() });
+            }
+        }
         if let Plan::Single { at, kind, frag, once, os } = &c.plan {
             let once = *once;
             let os = *os;
